@@ -500,6 +500,41 @@ def refused_delete_then_close_again(ctx):
                         ctx.violation('foreign object changed or deleted', w)
 
 
+def second_close_after_others_saved(ctx):
+    """A long-lived transient clean-up cassette is closed, saves nothing itself afterwards, another cassette object saves under the same key
+    prefix, and the clean-up cassette is closed again (the usual fixture arrangement): every close removes what is under the prefix then."""
+    for prefix in ('', 'ab', 'imports/metadata'):
+        for how in ('close', 'with_exit'):
+            fake = FakeS3()
+            with fake.installed():
+                fake.put('foreign', 'bkt', 'other/file', b'foreign', {})
+                janitor = fake.cassette('janitor', key_prefix=prefix, read_only=False, transient=True)
+                service = fake.cassette('service', key_prefix=prefix, read_only=False, transient=False)
+                w = {'second_close': True, 'prefix': prefix, 'how': how}
+                for rnd in range(3):
+                    for i in range(2):
+                        r = service.create_new_recording('Op')
+                        r.set_data('k', (rnd, i))
+                        service.save_recording(r)
+                    if rnd == 0:
+                        r = janitor.create_new_recording('Op')
+                        janitor.save_recording(r)
+                    if how == 'close':
+                        janitor.close()
+                    else:
+                        with janitor:
+                            pass
+                    ctx.case(dict(w, round=rnd))
+                    ctx.count('repeated_transient_closes')
+                    left = [k for k in fake.snapshot() if k != 'other/file']
+                    if left:
+                        ctx.violation('close number %d of a transient cassette left %d objects under its prefix (saved by another cassette object since its last close)' % (
+                            rnd + 1, len(left)), dict(w, round=rnd, left=sorted(left)[:3]))
+                        break
+                if fake.snapshot().get('other/file') != b'foreign':
+                    ctx.violation('foreign object changed or deleted', w)
+
+
 def large_recordings(ctx):
     """Recordings of 100 kB .. 65 MB (33 and 129 MB more in the thorough tier): whatever the size, what lookup discovers after the save is
     completely fetchable and holds what was saved."""
@@ -542,6 +577,7 @@ def run(ctx):
         wipe_then_resave(ctx)
         large_recordings(ctx)
         refused_delete_then_close_again(ctx)
+        second_close_after_others_saved(ctx)
     from playback.tape_cassettes.s3.s3_tape_cassette import S3TapeCassette
     env.anchor(S3TapeCassette, '_save_recording')
     n = ctx.budget(300, 20000)
@@ -555,6 +591,8 @@ def run(ctx):
 
 
 def replay(ctx, w):
+    if w.get('second_close'):
+        return second_close_after_others_saved(ctx)
     if w.get('refused_delete'):
         return refused_delete_then_close_again(ctx)
     if w.get('large_recordings'):
